@@ -694,6 +694,7 @@ def check_outward_helper(run, ix):
     kernel's error, in units of the extended precision), (c) round the product with the caller's precision and
     mode, and (d) hand a value back unchanged only when it is special / zero or under the exact-at-integers flag."""
     run.rule('C-R19', floor=4, desc='mpf_outward moves the kernel value outward before the directed rounding')
+    run.rule('C-R23', floor=2, desc='mpf_outward claims no bound from a nan of the kernel')
     f = ix.func(LIBMPI, 'mpf_outward')
     P = f.params            # f, args, prec, rounding, ...
     body = f.node
@@ -752,13 +753,48 @@ def check_outward_helper(run, ix):
         run.fail(Finding('C-R19', LIBMPI, 'mpf_outward', norm(fin[0]) if fin else 'def mpf_outward',
                          'the widened value is not rounded with the caller\'s precision and mode', line=f.lineno))
     # (d) pass-through returns: the special value, or the kernel's own directed rounding of an EXACTLY known value
+    # C-R23 (fifth C14 hunt; repair b34f672): a nan is no bound.  `return v` under `not man` hands back zero and the
+    # infinities -- and nan, unless a test for nan has answered before with -inf under `rounding == round_floor` and
+    # +inf otherwise (mpf_atan2 is nan at a corner with two infinite coordinates: iv.atan2([1, inf], [inf, inf]) was
+    # [0, nan]).  The same clause as C-R22 of mpc_outward.
+    def _dir_ok(r):
+        val = norm(r.value)
+        p_ = r
+        in_floor = False
+        while p_ is not body:
+            par_ = getattr(p_, '_parent', None)
+            if par_ is None:
+                break
+            if isinstance(par_, ast.If) and norm(par_.test) == '%s == round_floor' % P[3] and any(p_ is b for b in par_.body):
+                in_floor = True
+            p_ = par_
+        return (val == 'fninf' and in_floor) or (val == 'finf' and not in_floor)
+    nan_guard = None
+    for i in _walk_own(body):
+        if isinstance(i, ast.If) and norm(i.test).replace(' ', '') in ('v==fnan', 'visfnan', 'fnan==v'):
+            grets = [r for b in i.body for r in ast.walk(b) if isinstance(r, ast.Return)]
+            if grets and all(norm(r.value) in ('fninf', 'finf') and _dir_ok(r) for r in grets):
+                nan_guard = i
     for r in rets:
         if r in fin:
             continue
         par = getattr(r, '_parent', None)
         t = norm(par.test) if isinstance(par, ast.If) else ''
+        if norm(r.value) in ('fninf', 'finf'):
+            if _dir_ok(r):
+                run.ok('C-R23', 'mpf_outward: `%s` in its own direction: no bound claimed' % norm(r))
+            else:
+                run.fail(Finding('C-R23', LIBMPI, 'mpf_outward', norm(r), 'an infinite bound in the wrong direction: the lower '
+                                 'bound must be -inf (under `%s == round_floor`), the upper +inf' % P[3], line=r.lineno))
+            continue
         if norm(r.value) == 'v' and t == 'not man':
-            run.ok('C-R19', 'mpf_outward: `%s` only under `%s`' % (norm(r), t))
+            if nan_guard is not None and nan_guard.lineno < r.lineno:
+                run.ok('C-R19', 'mpf_outward: `%s` only under `%s`, nan excluded before' % (norm(r), t))
+            else:
+                run.fail(Finding('C-R23', LIBMPI, 'mpf_outward', norm(r), 'a nan of the kernel is handed back as a bound (under '
+                                 '`not man`, which holds for zero, the infinities AND nan): mpf_atan2 is nan at a corner with two '
+                                 'infinite coordinates, and iv.atan2(iv.mpf([1, inf]), iv.mpf([inf, inf])) is [0.0, nan], which '
+                                 'contains nothing', line=r.lineno))
             continue
         why = exact_table_passthrough(ix, f, r)
         if why is None:
